@@ -1,5 +1,6 @@
 import RaftVerif.Proofs.ServerLocal
 import RaftVerif.Proofs.Candidate
+import RaftVerif.Proofs.Leader
 /-! # C14 — pre-vote: the request handler is inert and grants only what a real vote could grant.
 Registered theorems: `SV.prevote_inert`, `SV.prevote_event_inert`, `SV.prevote_grant_sound`.
 `FullStatement` (not yet proved): an isolated server with pre-vote on never increases its term —
